@@ -15,10 +15,13 @@ Lemma alloc_lock_kern o : kern (alloc_lock o) = kern o.
 Proof. reflexivity. Qed.
 Lemma alloc_queue_kern o : kern (alloc_queue o) = kern o.
 Proof. reflexivity. Qed.
+Lemma alloc_chan_kern o : kern (alloc_chan o) = kern o.
+Proof. reflexivity. Qed.
 
 Lemma init_objs_kern s n : kern (init_objs s n) = loop_init n (sc_start s).
 Proof.
   unfold init_objs.
+  rewrite (iter_kern alloc_chan _ alloc_chan_kern).
   rewrite (iter_kern alloc_queue _ alloc_queue_kern).
   rewrite (iter_kern alloc_lock _ alloc_lock_kern).
   cbn. rewrite (iter_kern (fun o => fst (alloc_flag o)) _ alloc_flag_kern). reflexivity.
